@@ -6,7 +6,7 @@ use proptest::collection::vec;
 use proptest::prelude::*;
 use serde::{Deserialize, Serialize};
 
-use crate::refm::authsim::{ChainEnd, InjKind, Ip, RawChain, RawData, RawInj, RawNet, RawNs, RawRr, RawServer, RawZone};
+use crate::refm::authsim::{ChainEnd, InjKind, Ip, RawChain, RawData, RawFan, RawInj, RawNet, RawNs, RawRr, RawServer, RawZone};
 
 #[derive(Clone, Debug, Serialize, Deserialize)]
 pub struct NetSel {
@@ -33,6 +33,8 @@ pub enum QTarget {
     NsHost { zone: u8, k: u8 },
     /// a name that does not exist in the zone
     Nx { zone: u8 },
+    /// the root of the alias tree (falls back to a zone apex when the world has none)
+    Fan,
     /// element `offset` of generated CNAME chain `chain` (both modulo; falls back to a data name)
     Chain { chain: u8, offset: u8 },
     /// a data name in the deepest zone delegated to server `server` (modulo)
@@ -148,13 +150,15 @@ pub fn raw_net() -> impl Strategy<Value = RawNet> {
         vec(raw_server(), 2..=8),
         vec(raw_chain(), 0..=2),
         any::<bool>(),
+        prop_oneof![12 => Just(None), 1 => (0u8..8, prop_oneof![1 => Just(2u8), 3 => Just(3u8)], 4u8..=5).prop_map(|(zone, k, depth)| Some(RawFan { zone, k, depth }))],
     )
-        .prop_map(|(root_ns, zones, servers, chains, chase)| RawNet {
+        .prop_map(|(root_ns, zones, servers, chains, chase, fan)| RawNet {
             root_ns,
             zones,
             servers,
             chains,
             chase,
+            fan,
         })
 }
 
@@ -209,17 +213,21 @@ fn raw_query() -> impl Strategy<Value = RawQuery> {
         2 => (0u8..8).prop_map(|zone| QTarget::Apex { zone }),
         1 => (0u8..8, 0u8..2).prop_map(|(zone, k)| QTarget::NsHost { zone, k }),
         1 => (0u8..8).prop_map(|zone| QTarget::Nx { zone }),
+        1 => Just(QTarget::Fan),
     ];
     (target, prop_oneof![6 => Just(0u8), 1 => Just(1u8), 2 => Just(2u8), 1 => Just(3u8), 1 => Just(4u8)])
         .prop_map(|(target, qt)| RawQuery { target, qt })
 }
 
 pub fn net_case() -> impl Strategy<Value = NetCase> {
-    (0u64..16, prop_oneof![3 => Just(0u8), 1 => Just(7u8), 1 => Just(150u8)], raw_net(), cfg(), vec(raw_query(), 1..=4)).prop_map(|(os_seed, latency_ms, net, cfg, queries)| NetCase {
-        os_seed,
-        latency_ms,
-        net,
-        cfg,
-        queries,
+    (0u64..16, prop_oneof![3 => Just(0u8), 1 => Just(7u8), 1 => Just(150u8)], raw_net(), cfg(), vec(raw_query(), 1..=4)).prop_map(|(os_seed, latency_ms, net, mut cfg, mut queries)| {
+        if net.fan.is_some() {
+            // the tree is there to be walked: ask for its root, with room to nest
+            queries[0] = RawQuery { target: QTarget::Fan, qt: 0 };
+            if os_seed % 4 != 0 {
+                cfg.recursion_limit = cfg.recursion_limit.max(6);
+            }
+        }
+        NetCase { os_seed, latency_ms, net, cfg, queries }
     })
 }
